@@ -45,7 +45,7 @@ CHECKS = {
                       'Thorough tier adds a bounded Kani harness driving ConditionChain through its API (sequences of 5 operations) which also discharges the assumed is_active contract, and two three-level precedence shapes.',
         'level_note': 'Assumed in the quick tier: contract of ConditionChain::is_active (Iterator::all with an un-annotated closure has no usable spec); parse_p12 is uninterpreted inside the Verus unit (recursion through parentheses). '
                       'NOT decided: the line-splitting state machine of preprocess_included_file that routes directive lines to preprocess_command and text to flush_normal (let-chains: outside Verus; a Kani harness with 4 symbolic tokens exceeded 23 GB), gating beyond chain depth 2 and beyond one token shape per directive, '
-                      'the precedence-climbing glue beyond the 22 + 2 shapes (slice patterns; closures) and macro substitution / defined() in conditions. Assumed: u64::from(bool); preprocess_included_file threads the chain (uninterpreted result).',
+                      'the precedence-climbing glue beyond the 22 + 2 shapes (slice patterns; closures) and macro substitution / defined() in conditions. u64::from(bool), assumed by the Verus unit, is discharged by a complete Kani harness. Assumed: preprocess_included_file threads the chain (uninterpreted result); apply_macros is a function of its inputs; Vec::extend appends.',
     },
     'C13': {
         'engine': 'K+V',
